@@ -170,8 +170,10 @@ fn eval_stmt(
 {
     match stmt {
         Stmt::Block{block} => {
-            eval_stmts_in_new_scope(context, scopes, block)
+            let v = eval_stmts_in_new_scope(context, scopes, block)
                 .context(EvalBlockFailed)?;
+
+            return Ok(v);
         },
 
         Stmt::Expr{expr} => {
